@@ -291,7 +291,7 @@ def _short_sim(design, seed, idx, nm):
     return "ok", {}
 
 
-PIGGY = ["c01", "c03", "c03comb", "c04", "c14", "c15", "c16", "c07", "c08", "c03comb", "c12", "c02", "c20"]
+PIGGY = ["c01", "c03", "c03comb", "c04", "c14", "c15", "c16", "c07", "c08", "c03comb", "c12", "c02", "c20", "c05"]
 
 
 def piggy_source(seed, idx, tier):
@@ -355,6 +355,13 @@ def piggy_source(seed, idx, tier):
         rs = _rng.Stream(seed + 7, "C20", "map", j)
         m = c20.gen_interconnect(rs) if j % 4 == 0 else c20.gen_map(rs)
         return w, c20.render_src(m), False
+    if w == "c05":
+        # conversion cases the statement of C05 lets the compiler accept (the 4 equal-width port connections of the known C05
+        # finding are that check's own matter)
+        from vf.props import c05
+
+        acc = [c for c in c05.CASES if c05.expected(c) == "accept" and c["form"] != "port"]
+        return w, c05.render_src(acc[(j * 37 + seed) % len(acc)]), False
     if w == "c07":
         from vf.props import c07
 
